@@ -131,7 +131,8 @@ def metadata(rng, depth=0, maxdepth=3):
         if r < 0.2:
             # (strings that look like other values or like library tags must stay strings)
             v = {"s": rng.choice(["", "hello", "ünï", "多", "a\nb", " lead", "None", "none", "null", "nan", "True", "0",
-                                  "[]", "{}", "NIRGraph", "LIF", "metadata", "trail ", "x" * 300])}
+                                  "[]", "{}", "NIRGraph", "LIF", "metadata", "trail ", "x" * 300, "\ufeffbom first", "mid\ufeffbom",
+                                  "cafe\u0301", "\u212bngstrom"])}
         elif r < 0.31:
             v = pyint(rng.randrange(-5, 1000))
         elif r < 0.35:
@@ -566,6 +567,8 @@ NAMES += ["enc%2Ffc1", "%2F", "a%25b", "a%2fb", "x%00y", "a\\b", "a&#47;b", "a%b
 NAMES += ["²", "①", "٣", "10", "2", "007", "1e3", "-1", "½"]
 # trailing blanks are part of a name (padding of fixed-width strings is not)
 NAMES += ["relay ", "trail  ", "tab\t"]
+# names that are not in Unicode normal form C (a decomposed accent, a compatibility character) stay as they are
+NAMES += ["cafe\u0301", "\u212b", "\ufeffn"]
 
 
 def rand_name(rng, slash=False):
